@@ -122,6 +122,17 @@ func genC11(r *Rand, tier string) *Case {
 	case 6: // a second SSLRequest inside the TLS session
 		cc.Steps = []Step{{Msgs: []pgwire.FMsg{{K: "ssl"}}}}
 		c.Variant = "ssl-inside-tls"
+	case 7: // the handshake fails: the client only speaks TLS versions the server refuses
+		tc.MinVer, tc.MaxVer = 0x0301, 0x0302
+		c.Variant = "handshake-fails"
+	}
+	if r.Chance(1, 4) {
+		// an SSLRequest packet that is longer than 8 bytes: start-up parameters
+		// ride behind the request code
+		tc.SSLBody = append([]byte("user\x00mallory\x00database\x00db\x00"), 0)
+		if r.Bool() {
+			tc.SSLBody = r.Bytes(r.PickInt(1, 4, 40))
+		}
 	}
 	if r.Chance(1, 5) {
 		// the server asks for a client certificate without verifying it, and the
@@ -355,7 +366,7 @@ func checkC11(x *Exec, c *Case) ([]Violation, bool) {
 		if CallbackTrace(cs) != CallbackTrace(rcs) {
 			add("tls-callbacks-differ", fmt.Sprintf("callback trace inside TLS differs from plaintext:\n  tls:   %s\n  plain: %s", trunc(strings.ReplaceAll(CallbackTrace(cs), "\n", "; "), 200), trunc(strings.ReplaceAll(CallbackTrace(rcs), "\n", "; "), 200)))
 		}
-	case "cancel-after-upgrade", "ssl-inside-tls", "ssl-twice", "abort-handshake":
+	case "cancel-after-upgrade", "ssl-inside-tls", "ssl-twice", "abort-handshake", "handshake-fails":
 		// T6 and friends: no protocol reply, no callback, closed
 		if len(cs.Plain) != 0 {
 			add("reply-to-"+c.Variant, fmt.Sprintf("the server replied %q", trunc(string(cs.Plain), 40)))
